@@ -288,3 +288,66 @@ var lowOrderPoints = func() [][32]byte {
 		h(0x01, 0x00, 0x80),  // 1 with top bit
 	}
 }()
+
+// smallOrderEd: the encodings of the eight small-order points of edwards25519 (orders 1, 2, 4, 4, 8, 8, 8, 8) plus
+// the non-canonical encodings of the same points (y = p, y = p+1; x = 0 with the sign bit set): 14 in all, i.e. the
+// seven y-values of libsodium's ge25519_has_small_order list with either sign bit. Nobody holds a private key for
+// such an "identity": a signature (R = small-order point, S = 0) verifies under it for a constant fraction of all
+// messages (for the neutral point: for every message). TestLowOrderList self-checks the list.
+var smallOrderEd = func() [][32]byte {
+	hex32 := func(s string) [32]byte {
+		var p [32]byte
+		for i := 0; i < 32; i++ {
+			fmt.Sscanf(s[2*i:2*i+2], "%02x", &p[i])
+		}
+		return p
+	}
+	fl := func(first, last byte) [32]byte {
+		var p [32]byte
+		for i := range p {
+			p[i] = 0xff
+		}
+		p[0], p[31] = first, last
+		return p
+	}
+	ys := [][32]byte{
+		hex32("0100000000000000000000000000000000000000000000000000000000000000"), // y = 1: neutral, order 1
+		fl(0xec, 0x7f), // y = -1: order 2
+		hex32("0000000000000000000000000000000000000000000000000000000000000000"), // y = 0: order 4
+		hex32("26e8958fc2b227b045c3f489f2ef98f0d5dfac05d3c63339b13802886d53fc05"), // order 8
+		hex32("c7176a703d4dd84fba3c0b760d10670f2a2053fa2c39ccc64ec7fd7792ac037a"), // order 8
+		fl(0xed, 0x7f), // y = p (= 0), non-canonical
+		fl(0xee, 0x7f), // y = p+1 (= 1), non-canonical
+	}
+	var out [][32]byte
+	for _, y := range ys {
+		out = append(out, y)
+		y[31] |= 0x80
+		out = append(out, y)
+	}
+	return out
+}()
+
+func isSmallOrderEd(pub []byte) bool {
+	for _, p := range smallOrderEd {
+		if bytes.Equal(pub, p[:]) {
+			return true
+		}
+	}
+	return false
+}
+
+// degenerateSig looks for a signature (R small order, S = 0) that verifies for msg under the small-order key pub.
+// Everything used is public: this is what a party WITHOUT any private key can do.
+func degenerateSig(pub, msg []byte) ([]byte, bool) {
+	for _, r := range smallOrderEd {
+		sig := make([]byte, 64)
+		copy(sig, r[:])
+		if refVerify(pub, msg, sig) {
+			return sig, true
+		}
+	}
+	sig := make([]byte, 64)
+	copy(sig, smallOrderEd[0][:])
+	return sig, false
+}
